@@ -1,0 +1,169 @@
+//go:build verif
+
+// Contracts for the verification machinery in /verif (comment-only; never compiled into a binary).
+// Property C18: load-aware rebalancing evicts only from overloaded nodes and only while it helps.
+
+package loadaware
+
+//@ uses pkg/descheduler/node, pkg/descheduler/utils/anomaly
+
+// A resource is "over" when it has a threshold, a measured usage, and usage > threshold.
+//@ spec func overAt(usage map[corev1.ResourceName]*resource.Quantity, th map[corev1.ResourceName]*resource.Quantity, n corev1.ResourceName) bool = has(th, n) && usage[n] != nil && deref(usage[n]) > deref(th[n])
+
+//@ func isNodeOverutilized [C18]
+//@   ensures #iff: result1 <==> (exists n corev1.ResourceName :: overAt(usage, thresholds, n))
+//@   ensures #dom: forall n corev1.ResourceName :: has(result0, n) <==> overAt(usage, thresholds, n)
+//@   ensures #val: forall n corev1.ResourceName :: has(result0, n) ==> val(result0, n) == deref(usage[n])
+//@   ensures #fresh: fresh(result0)
+//@   modifies nothing
+//@   loop 1 invariant fresh(overutilizedResources) && overutilizedResources != nil
+//@   loop 1 invariant forall n corev1.ResourceName :: $seen[n] ==> has(thresholds, n)
+//@   loop 1 invariant forall n corev1.ResourceName :: has(overutilizedResources, n) <==> ($seen[n] && overAt(usage, thresholds, n))
+//@   loop 1 invariant forall n corev1.ResourceName :: has(overutilizedResources, n) ==> val(overutilizedResources, n) == deref(usage[n])
+//@   loop 1 invariant forall q corev1.ResourceList, n corev1.ResourceName :: q != overutilizedResources ==> val(q, n) == old(val(q, n))
+
+//@ func isNodeUnderutilized [C18]
+//@   ensures #iff: result <==> (forall n corev1.ResourceName :: !overAt(usage, thresholds, n))
+//@   modifies nothing
+//@   loop 1 invariant forall n corev1.ResourceName :: $seen[n] ==> has(thresholds, n) && !overAt(usage, thresholds, n)
+
+// evictPods: every Evict call is for the pod of the current iteration, never in dry-run mode, at most
+// one per input pod. continueEviction / podFilter / evictionReasonGenerator are function-typed
+// parameters: the engine havocs calls through them and gives no handle on their results.
+//@ func evictPods [C18]
+//@   assert before call Evict: #live: !dryRun
+//@   assert before call Evict: #thispod: $arg1 == pod
+//@   assert before call Add: #onlydecrease: false
+//@   assert before call Sub: #estimate: podMetric != nil && (exists n corev1.ResourceName :: has(totalAvailableUsages, n) && availableUsage == totalAvailableUsages[n] && $arg0 == (n == corev1.ResourcePods ? 1 : val(podMetric.ResourceList, n)) && ($recv == availableUsage || $recv == nodeInfo.NodeUsage.usage[n] || (prod && $recv == nodeInfo.NodeUsage.prodUsage[n])))
+// (dry-run => no Evict call, and at most one Evict per input pod, are carried by #live and by the loop
+// invariant; as ensures clauses their calls("Evict") term would break the caller balancePods.)
+//@   loop 1 invariant 0 <= $i && $i <= len(inputPods)
+//@   loop 1 invariant calls("Evict") <= $i && (dryRun ==> calls("Evict") == 0)
+
+//@ spec func anyOver(usage map[corev1.ResourceName]*resource.Quantity, th map[corev1.ResourceName]*resource.Quantity) bool = exists n corev1.ResourceName :: overAt(usage, th, n)
+
+// The four predicates that decide the list a node lands in (passed to classifyNodes by processOneNodePool).
+//@ func lowThresholdFilter [C18]
+//@   requires usage != nil && usage.node != nil
+//@   ensures #iff: result <==> (!usage.node.Spec.Unschedulable && !anyOver(usage.usage, threshold.lowResourceThreshold))
+//@   modifies nothing
+
+//@ func prodLowThresholdFilter [C18]
+//@   requires usage != nil && usage.node != nil
+//@   ensures #iff: result <==> (!usage.node.Spec.Unschedulable && !anyOver(usage.prodUsage, threshold.prodLowResourceThreshold))
+//@   modifies nothing
+
+//@ func highThresholdFilter [C18]
+//@   requires usage != nil
+//@   ensures #iff: result <==> anyOver(usage.usage, threshold.highResourceThreshold)
+//@   modifies nothing
+
+//@ func prodHighThresholdFilter [C18]
+//@   requires usage != nil
+//@   ensures #iff: result <==> anyOver(usage.prodUsage, threshold.prodHighResourceThreshold)
+//@   modifies nothing
+
+// classifyNodes: the filters are function-typed parameters (calls havocked). What remains checkable is
+// exclusivity by counting: every loop iteration (= one node; counted by its single klog InfoS call)
+// appends to at most one of the five lists. Stated as a loop invariant only: a calls("...") term in an
+// ensures clause makes every caller under contract fail with "counter not registered".
+//@ func classifyNodes [C18]
+//@   loop 1 invariant len(lowNodes) + len(highNodes) + len(prodLowNodes) + len(prodHighNodes) + len(bothLowNodes) <= calls("InfoS")
+//@   loop 1 invariant len(lowNodes) >= 0 && len(highNodes) >= 0 && len(prodLowNodes) >= 0 && len(prodHighNodes) >= 0 && len(bothLowNodes) >= 0
+
+// processOneNodePool: the eviction pass is reached only when some node is overloaded (and confirmed
+// abnormal), some node is underused, more than NumberOfNodes nodes are underused, and not all nodes
+// are underused. The full gate is asserted at the first statement after the early exits
+// (sortNodesByUsage#1; straight-line code leads from there to evictPodsFromSourceNodes) because the
+// calls in between forget pl.args. #notall (all-underused gate; `nodes` can only be named by its entry
+// value, hence the NodeSelector == nil guard) is solver-unstable: discharged by one engine build, timeout with the next.
+//@ func (*LowNodeLoad).processOneNodePool [C18]
+//@   requires pl != nil && pl.args != nil && nodePool != nil
+//@   assert before call sortNodesByUsage#1: #overloaded: (len(sourceNodes) > 0 || len(prodHighNodes) > 0) && (len(abnormalNodes) > 0 || len(abnormalProdNodes) > 0)
+//@   assert before call sortNodesByUsage#1: #underused: (len(lowNodes) > 0 || len(prodLowNodes) > 0 || len(bothLowNodes) > 0) && allLowNodes == len(lowNodes) + len(prodLowNodes) + len(bothLowNodes)
+//@   assert before call sortNodesByUsage#1: #enough: allLowNodes > int(pl.args.NumberOfNodes)
+//@   assert before call evictPodsFromSourceNodes: #gated: calls("sortNodesByUsage") == 2 && (len(sourceNodes) > 0 || len(prodHighNodes) > 0) && (len(abnormalNodes) > 0 || len(abnormalProdNodes) > 0) && (len(lowNodes) > 0 || len(prodLowNodes) > 0 || len(bothLowNodes) > 0)
+//@   assert before call evictPodsFromSourceNodes: #notall: old(nodePool.NodeSelector) == nil ==> len(lowNodes) + len(prodLowNodes) + len(bothLowNodes) != len(nodes)
+//@   assert before call evictPodsFromSourceNodes: #lists: $arg2 == abnormalNodes && $arg3 == lowNodes && $arg4 == abnormalProdNodes && $arg5 == prodLowNodes && $arg6 == bothLowNodes
+//@   ensures #once: calls("evictPodsFromSourceNodes") <= 1
+
+// The continue-eviction condition built by processOneNodePool: true exactly when the source node is
+// still above its (prod) high threshold in some resource AND every configured resource still has
+// strictly positive headroom on the destination nodes.
+//@ spec func selUsage(ni NodeInfo, prod bool) map[corev1.ResourceName]*resource.Quantity = prod ? ni.NodeUsage.prodUsage : ni.NodeUsage.usage
+//@ spec func selHigh(ni NodeInfo, prod bool) map[corev1.ResourceName]*resource.Quantity = prod ? ni.thresholds.prodHighResourceThreshold : ni.thresholds.highResourceThreshold
+//@ spec func headroomLeft(names []corev1.ResourceName, avail map[corev1.ResourceName]*resource.Quantity) bool = forall j int :: 0 <= j && j < len(names) && has(avail, names[j]) ==> deref(avail[names[j]]) > 0
+
+//@ func (*LowNodeLoad).processOneNodePool$1 [C18]
+//@   requires nodeInfo.NodeUsage != nil
+//@   ensures #overloaded: result ==> old(anyOver(selUsage(nodeInfo, prod), selHigh(nodeInfo, prod)))
+//@   ensures #headroom: result ==> old(headroomLeft(deref($fv_resourceNames), totalAvailableUsages))
+//@   ensures #iff: result <==> old(anyOver(selUsage(nodeInfo, prod), selHigh(nodeInfo, prod)) && headroomLeft(deref($fv_resourceNames), totalAvailableUsages))
+//@   loop 1 invariant 0 <= $i && $i <= len(deref($fv_resourceNames))
+//@   loop 1 invariant forall j int :: 0 <= j && j < $i && has(totalAvailableUsages, deref($fv_resourceNames)[j]) ==> deref(totalAvailableUsages[deref($fv_resourceNames)[j]]) > 0
+
+// Anomaly gating. Without a condition (or with ConsecutiveAbnormalities == 1) every overloaded node is
+// a source; otherwise each overloaded node's detector is marked abnormal exactly once and at most the
+// marked nodes are returned. The Detector is an interface and the cache is a third-party object:
+// Mark / Get / Set are havocked, so membership ("exactly the nodes whose Mark returned StateAnomaly")
+// cannot be stated; only the counts are.
+//@ func filterRealAbnormalNodes [C18]
+//@   assert before call Mark: #abnormal: !$arg0
+//@   ensures #ungated: anomalyCondition == nil || old(anomalyCondition.ConsecutiveAbnormalities) == 1 ==> result == sourceNodes
+//@   ensures #gated: anomalyCondition != nil && old(anomalyCondition.ConsecutiveAbnormalities) != 1 ==> len(result) == 0 || arr(result) != arr(sourceNodes)
+//@   ensures #subset: len(result) <= len(sourceNodes)
+//@   loop 1 invariant 0 <= $i && $i <= len(sourceNodes)
+//@   loop 1 invariant len(abnormalNodes) <= $i && calls("Mark") == $i
+//@   loop 1 invariant len(abnormalNodes) == 0 || fresh(arr(abnormalNodes))
+//@   loop 1 invariant #marked: $i > 0 && state == anomaly.StateAnomaly ==> len(abnormalNodes) >= 1
+
+// The detector conditions installed for a node: strictly more than the configured number of
+// consecutive abnormal (normal) rounds.
+//@ func filterRealAbnormalNodes$1 [C18]
+//@   ensures #iff: result <==> counter.ConsecutiveNormalities > deref($fv_anomalyCondition).ConsecutiveNormalities
+//@   modifies nothing
+
+//@ func filterRealAbnormalNodes$2 [C18]
+//@   ensures #iff: result <==> counter.ConsecutiveAbnormalities > deref($fv_anomalyCondition).ConsecutiveAbnormalities
+//@   modifies nothing
+
+// targetAvailableUsage: one target node per destination node, in order; one fresh accumulator per
+// configured resource. The accumulated value is a sum over the destination nodes; the contract
+// language has no sum/recursive spec functions, so the value is stated for the empty case and, per
+// step, as call-site assertions: each node adds its (prod) high threshold and subtracts its (prod) usage.
+//@ func targetAvailableUsage [C18]
+//@   assert before call Add: #addhigh: $recv == totalAvailableUsages[resourceName] && $arg0 == deref(prod ? destinationNode.thresholds.prodHighResourceThreshold[resourceName] : destinationNode.thresholds.highResourceThreshold[resourceName])
+//@   assert before call Sub: #subusage: $recv == totalAvailableUsages[resourceName] && $arg0 == deref(prod ? destinationNode.NodeUsage.prodUsage[resourceName] : destinationNode.NodeUsage.usage[resourceName])
+//@   ensures #targets: len(result1) == len(destinationNodes)
+//@   ensures #nodes: forall j int :: 0 <= j && j < len(result1) ==> result1[j] == old(destinationNodes[j].NodeUsage.node)
+//@   ensures #keys: forall j int :: 0 <= j && j < len(resourceNames) ==> has(result0, resourceNames[j]) && result0[resourceNames[j]] != nil
+//@   ensures #empty: len(destinationNodes) == 0 ==> (forall j int :: 0 <= j && j < len(resourceNames) ==> deref(result0[resourceNames[j]]) == 0)
+//@   ensures #fresh: fresh(result0)
+//@   loop 1 invariant 0 <= $i && $i <= len(resourceNames) && fresh(totalAvailableUsages) && totalAvailableUsages != nil && len(targetNodes) == 0
+//@   loop 1 invariant forall n corev1.ResourceName :: has(totalAvailableUsages, n) ==> totalAvailableUsages[n] != nil && fresh(totalAvailableUsages[n]) && deref(totalAvailableUsages[n]) == 0
+//@   loop 1 invariant forall j int :: 0 <= j && j < $i ==> has(totalAvailableUsages, resourceNames[j])
+//@   loop 1 invariant forall j int :: 0 <= j && j < len(resourceNames) ==> resourceNames[j] == old(resourceNames[j])
+//@   loop 2 invariant 0 <= $i && $i <= len(destinationNodes) && len(targetNodes) == $i && fresh(totalAvailableUsages) && totalAvailableUsages != nil
+//@   loop 2 invariant forall j int :: 0 <= j && j < len(resourceNames) ==> has(totalAvailableUsages, resourceNames[j]) && totalAvailableUsages[resourceNames[j]] != nil
+//@   loop 2 invariant forall j int :: 0 <= j && j < len(resourceNames) ==> resourceNames[j] == old(resourceNames[j])
+//@   loop 2 invariant forall j int :: 0 <= j && j < $i ==> targetNodes[j] == old(destinationNodes[j].NodeUsage.node)
+//@   loop 2 invariant forall j int :: 0 <= j && j < len(destinationNodes) ==> destinationNodes[j].NodeUsage == old(destinationNodes[j].NodeUsage) && destinationNodes[j].NodeUsage.node == old(destinationNodes[j].NodeUsage.node)
+//@   loop 2 invariant $i == 0 ==> (forall j int :: 0 <= j && j < len(resourceNames) ==> deref(totalAvailableUsages[resourceNames[j]]) == 0)
+//@   loop 3 invariant 0 <= $i && $i <= len(resourceNames)
+//@   loop 3 invariant forall j int :: 0 <= j && j < len(resourceNames) ==> has(totalAvailableUsages, resourceNames[j]) && totalAvailableUsages[resourceNames[j]] != nil
+//@   loop 3 invariant forall j int :: 0 <= j && j < len(resourceNames) ==> resourceNames[j] == old(resourceNames[j])
+
+// balancePods: pods are evicted from a source node only when there is at least one destination node,
+// only from that node's removable pods (non-empty), and with the caller's dry-run / prod / headroom
+// arguments passed through unchanged.
+//@ func balancePods [C18]
+//@   assert before call evictPods: #receiver: len(targetNodes) > 0
+//@   assert before call evictPods: #source: len($arg4) > 0 && $arg4 == removablePods && $arg2 == dryRun && $arg3 == prod && $arg6 == totalAvailableUsages
+
+// evictPodsFromSourceNodes: the node-level pass moves load from the (abnormal) overloaded nodes to the
+// low + both-low nodes only; the prod pass from the prod-overloaded nodes to the prod-low + both-low
+// nodes only. Together with balancePods#receiver: no destination list => no eviction in that pass.
+//@ func evictPodsFromSourceNodes [C18]
+//@   assert before call balancePods#1: #nodepass: $arg2 == sourceNodes && !$arg9 && len($arg3) == len(destinationNodes) + len(bothDestinationNodes) && $arg7 == dryRun
+//@   assert before call balancePods#2: #prodpass: $arg2 == prodSourceNodes && $arg9 && len($arg3) == len(prodDestinationNodes) + len(bothDestinationNodes) && $arg7 == dryRun
+//@   assert before call balancePods: #two: calls("balancePods") <= 2
